@@ -340,6 +340,25 @@ pub fn directed() -> Vec<(Vec<Op>, Vec<&'static str>)> {
             vec![d("/c/real/sub"), f("/c/real/f"), d("/c/a_dir"), d("/c/z_dir/in"), l("/c/l1", "/c/real"), l("/c/l2", "/c/l1"), l("/c/lf1", "/c/real/f"), l("/c/lf2", "/c/lf1"), l("/c/z_dir/in/l3", "/c/l2"), l("/c/m_dang", "/c/nope")],
             vec!["/c", "/", "/c/z_dir"],
         ),
+        // a wide directory (more entries than any plausible batch / descriptor size) whose names differ in case,
+        // punctuation, length and byte width: the order of sorted traversals is byte order of the names
+        (
+            {
+                let mut v = vec![d("/w/sub/deep")];
+                for i in 0..220 {
+                    v.push(f(&format!("/w/f{:03}", i)));
+                }
+                for i in 0..70 {
+                    v.push(d(&format!("/w/d{:02}", i)));
+                }
+                for n in ["A", "a", "B", "b", "_x", "-x", "é", "E", "z10", "z9", "z090", "Z", "日", "a b", "a.b", "ab"] {
+                    v.push(if n.len() % 2 == 0 { d(&format!("/w/{}", n)) } else { f(&format!("/w/{}", n)) });
+                }
+                v.push(l("/w/sub/back", "/w"));
+                v
+            },
+            vec!["/w", "/"],
+        ),
     ]
 }
 
@@ -575,7 +594,7 @@ pub fn all_opts() -> Vec<Opts> {
 }
 
 pub fn run(c: &Ctx) {
-    c.set_rule("four hand-made trees aimed at name-prefix confusions, shared targets, self/ancestor links and chains of links (full option product from 4-5 roots each, both backends) and proptest-generated trees (<=25 entries, depth <=5, 12 adversarial names incl. multi-byte/space/dot names, links to earlier entries of any kind, dangling links, links to ancestor directories; one tree in ten with a 60-level directory chain, deeper than the descriptor cap) x the FULL cross-product of entries() options: depth window {(0,0),(0,1),(0,2),(0,inf),(1,1),(1,2),(1,inf),(2,2),(2,inf),(3,inf)} in both call orders x filter {none, dirs(), files(), filter_p(name contains 'a')} x follow x ordering {none, sort_by_name, dirs_first, files_first, custom reverse-name sort} x contents_first x descriptor cap {default, 1, 2 via hook H3} = 4800 option sets per tree, from the root and from one inner directory; Memfs always; on Stdfs (tree materialised with std::fs) one tree in four with a seeded sixth of the option sets. Oracle: reference traversal over the model: multiset equality of (path, alt, kind flags) incl. LinkLooping items, exact sequence when an ordering is set, parent-before/after-contents otherwise, termination bound 4*(entries+1)*(links+1). Listing helpers paths/dirs/files/all_* on every path (dir, file, link, missing) vs the model: absolute, distinct, name-sorted, exclude the argument, agree with exists/is_dir/is_file. Non-trivial = option set with >=2 non-default options on a tree with a nested directory (and a link when follow); distinct by (tree, root, options).");
+    c.set_rule("five hand-made trees aimed at name-prefix confusions, shared targets, self/ancestor links, chains of links and a wide directory (300 entries whose names differ in case, punctuation, length and byte width) (full option product from 4-5 roots each, both backends) and proptest-generated trees (<=25 entries, depth <=5, 12 adversarial names incl. multi-byte/space/dot names, links to earlier entries of any kind, dangling links, links to ancestor directories; one tree in ten with a 60-level directory chain, deeper than the descriptor cap) x the FULL cross-product of entries() options: depth window {(0,0),(0,1),(0,2),(0,inf),(1,1),(1,2),(1,inf),(2,2),(2,inf),(3,inf)} in both call orders x filter {none, dirs(), files(), filter_p(name contains 'a')} x follow x ordering {none, sort_by_name, dirs_first, files_first, custom reverse-name sort} x contents_first x descriptor cap {default, 1, 2 via hook H3} = 4800 option sets per tree, from the root and from one inner directory; Memfs always; on Stdfs (tree materialised with std::fs) one tree in four with a seeded sixth of the option sets. Oracle: reference traversal over the model: multiset equality of (path, alt, kind flags) incl. LinkLooping items, exact sequence when an ordering is set, parent-before/after-contents otherwise, termination bound 4*(entries+1)*(links+1). Listing helpers paths/dirs/files/all_* on every path (dir, file, link, missing) vs the model: absolute, distinct, name-sorted, exclude the argument, agree with exists/is_dir/is_file. Non-trivial = option set with >=2 non-default options on a tree with a nested directory (and a link when follow); distinct by (tree, root, options).");
     c.assume("windows with min>max (builder clamping) are not generated; trees in which a followed link points at another link are excluded for follow runs (counted); generated Stdfs trees have no dangling links; the hand-made chain tree has one: on the real filesystem a dangling link is neither dir nor file (Memfs: a file), the reference follows the backend");
     let opts = all_opts();
     c.note("option_sets_per_tree", opts.len());
